@@ -488,6 +488,22 @@ func (x *Decimal) Float(z *big.Float) *big.Float {
 // If x is too large to be represented by a float32 (|x| > math.MaxFloat32),
 // the result is (+Inf, Above) or (-Inf, Below), depending on the sign of x.
 func (x *Decimal) Float32() (float32, Accuracy) {
+	if x.form == finite {
+		// Far outside the float32 range: do not go through a big.Float,
+		// whose own exponent range is exceeded by 5**|x.exp|.
+		switch {
+		case x.exp > 39: // |x| >= 1e39 > math.MaxFloat32
+			if x.neg {
+				return float32(math.Inf(-1)), Below
+			}
+			return float32(math.Inf(+1)), Above
+		case x.exp < -45: // |x| < 1e-45 < math.SmallestNonzeroFloat32/2
+			if x.neg {
+				return float32(math.Copysign(0, -1)), Above
+			}
+			return 0, Below
+		}
+	}
 	z := x.Float(new(big.Float).SetPrec(32))
 	f, a := z.Float32()
 	// If big.Float -> float64 conversion is accurate, use Decimal->Float accuracy.
@@ -503,6 +519,22 @@ func (x *Decimal) Float32() (float32, Accuracy) {
 // If x is too large to be represented by a float64 (|x| > math.MaxFloat64),
 // the result is (+Inf, Above) or (-Inf, Below), depending on the sign of x.
 func (x *Decimal) Float64() (float64, Accuracy) {
+	if x.form == finite {
+		// Far outside the float64 range: do not go through a big.Float,
+		// whose own exponent range is exceeded by 5**|x.exp|.
+		switch {
+		case x.exp > 309: // |x| >= 1e309 > math.MaxFloat64
+			if x.neg {
+				return math.Inf(-1), Below
+			}
+			return math.Inf(+1), Above
+		case x.exp < -324: // |x| < 1e-324 < math.SmallestNonzeroFloat64/2
+			if x.neg {
+				return math.Copysign(0, -1), Above
+			}
+			return 0, Below
+		}
+	}
 	z := x.Float(new(big.Float).SetPrec(64))
 	f, a := z.Float64()
 	// If big.Float -> float64 conversion is accurate, use Decimal->Float accuracy.
